@@ -579,6 +579,212 @@ pub fn part_c13_overlap(tier: Tier) -> Part {
     part
 }
 
+// ------------------------------------------------------------------------------------------ C13 data breakpoints
+
+/// setDataBreakpoints replaces: observed through the wire alone (the sandbox's kernel delivers
+/// no data-breakpoint traps and the debug registers can only be read by the tracer thread):
+/// the debugger refuses a fifth watchpoint and a second one on an address, so the `verified`
+/// flags of a request tell whether the previous set was really removed.
+pub fn part_c13_data(tier: Tier) -> Part {
+    c13_data_impl(tier, None)
+}
+
+/// Replay of one sequence of the part (by its index in the tier's enumeration).
+pub fn replay_c13_data(v: &Value) -> i32 {
+    let tier = if v["tier"] == "thorough" { Tier::Thorough } else { Tier::Quick };
+    let part = c13_data_impl(tier, Some(v["index"].as_u64().unwrap_or(0) as usize));
+    for f in &part.violations {
+        println!("violated {}: {}", f.sig, f.detail);
+    }
+    if part.violations.is_empty() { 0 } else { 1 }
+}
+
+fn c13_data_impl(tier: Tier, only: Option<usize>) -> Part {
+    use crate::isession::ISession;
+    use rayon::prelude::*;
+    let mut part = Part::new("dap-data-breakpoints-replace");
+    part.rule = "the program is stopped at a loop-body line through the real adapter; sequences of setDataBreakpoints requests over the lists {[], [A], [A,B,C,D], [B,C,D,E], [A,A], [A,B,C,D,E], [A readWrite, B read]} (A..E = five 8-byte words next to a static) are sent, one connection per sequence: every ordered pair of lists; pairs with `continue` to the next stop or `restart` in between and triples (quick: over the three lists that fill the registers or repeat an address; thorough: over all seven); because each request replaces the previous set, the verified flags of EVERY request must be those of an empty debugger: true for the first four distinct addresses of the list, false for a repeated address, for a fifth one and for the unsupported access type `read` - a refused address that the model says is free means the old set was not removed, an accepted one beyond four means slots leaked. Hardware delivery is not available here, so stops on access are not covered".into();
+    let ps = match progs(vec![vec![Stmt::While(3), Stmt::CallF]]) {
+        Ok(p) => p,
+        Err(e) => {
+            part.violate("C13:machinery:corpus", e, json!({}));
+            part.exhaustive = false;
+            return part;
+        }
+    };
+    let p = &ps[0];
+    let Some(line) = p.line_of("body1") else {
+        part.violate("C13:machinery:no-line", "body1".to_string(), json!({}));
+        return part;
+    };
+    let Some(acc) = crate::reftrace::elf_info(&p.built.exe).ok().and_then(|i| i.data_symbols.iter().find(|(n, _, _)| n.contains("ACC")).map(|x| x.1)) else {
+        part.violate("C13:machinery:no-static", "ACC".to_string(), json!({}));
+        return part;
+    };
+    // (the symbol addresses of elf_info are run-time addresses already)
+    let mut base8 = acc & !7;
+    if (base8 & 0xfff) + 48 >= 0x1000 {
+        base8 -= 40;
+    }
+    let id = |k: usize| format!("0x{:x}:8", base8 + 8 * k as u64);
+    // (address index, access type)
+    let lists: Vec<Vec<(usize, &str)>> = vec![
+        vec![],
+        vec![(0, "write")],
+        vec![(0, "write"), (1, "write"), (2, "write"), (3, "write")],
+        vec![(1, "write"), (2, "write"), (3, "write"), (4, "write")],
+        vec![(0, "write"), (0, "write")],
+        vec![(0, "write"), (1, "write"), (2, "write"), (3, "write"), (4, "write")],
+        vec![(0, "readWrite"), (1, "read")],
+    ];
+    #[derive(Clone, Debug)]
+    enum Step {
+        Set(usize),
+        Continue,
+        Restart,
+    }
+    let n = lists.len();
+    let mut seqs: Vec<Vec<Step>> = vec![];
+    // quick: every ordered pair of lists; continue / restart between, and triples, over the lists
+    // that fill the registers or repeat an address. thorough: everything
+    let core = [2usize, 3, 4];
+    for a in 0..n {
+        for b in 0..n {
+            seqs.push(vec![Step::Set(a), Step::Set(b)]);
+            if tier == Tier::Thorough || (core.contains(&a) && core.contains(&b)) {
+                seqs.push(vec![Step::Set(a), Step::Continue, Step::Set(b)]);
+                seqs.push(vec![Step::Set(a), Step::Restart, Step::Set(b)]);
+            }
+            for c in 0..n {
+                if tier == Tier::Thorough || (core.contains(&a) && core.contains(&b) && core.contains(&c)) {
+                    seqs.push(vec![Step::Set(a), Step::Set(b), Step::Set(c)]);
+                }
+            }
+        }
+    }
+    if let Some(i) = only {
+        seqs = seqs.into_iter().skip(i).take(1).collect();
+    }
+    part.bounds = json!({"lists": n, "sequences": seqs.len(), "requests_per_sequence": 3, "all_triples": tier == Tier::Thorough});
+    let expected = |l: &Vec<(usize, &str)>| -> Vec<bool> {
+        let mut inst: Vec<usize> = vec![];
+        l.iter()
+            .map(|(k, acc)| {
+                if *acc == "read" || inst.contains(k) || inst.len() >= 4 {
+                    false
+                } else {
+                    inst.push(*k);
+                    true
+                }
+            })
+            .collect()
+    };
+    let src = json!({"path": p.built.src_path, "name": p.built.program.src_file});
+    let run_seq = |sq: &Vec<Step>| -> Result<Vec<(String, String)>, String> {
+        let mut sess = ISession::start("dap", &json!({"exe": p.built.exe, "main_entry_sp": p.trace.main_entry_sp}))?;
+        let mut seq = 0i64;
+        let mut send = |sess: &mut ISession, command: &str, args: Value| -> Result<Value, String> {
+            seq += 1;
+            let o = sess.cmd(&json!({"seq": seq, "type": "request", "command": command, "arguments": args}), Duration::from_secs(60)).map_err(|e| format!("{command}: {e:?}"))?;
+            let resp = o["wire"].as_array().and_then(|w| w.iter().find(|m| m["type"] == "response").cloned()).unwrap_or(Value::Null);
+            Ok(json!({"resp": resp, "wire": o["wire"]}))
+        };
+        let stopped = |v: &Value| v["wire"].as_array().map(|w| w.iter().any(|m| m["event"] == "stopped")).unwrap_or(false);
+        send(&mut sess, "initialize", json!({"adapterID":"bsmc"}))?;
+        send(&mut sess, "launch", json!({"program": p.built.exe, "args": []}))?;
+        send(&mut sess, "setBreakpoints", json!({"source": src, "breakpoints": [{"line": line}]}))?;
+        let cd = send(&mut sess, "configurationDone", json!({}))?;
+        if !stopped(&cd) {
+            return Err("no stop after configurationDone".into());
+        }
+        let tid = cd["wire"].as_array().and_then(|w| w.iter().find(|m| m["event"] == "stopped").and_then(|m| m["body"]["threadId"].as_i64())).unwrap_or(1);
+        let mut out = vec![];
+        let mut hist = String::new();
+        for st in sq {
+            match st {
+                Step::Set(k) => {
+                    let l = &lists[*k];
+                    hist.push_str(&format!("setDataBreakpoints{:?}; ", l));
+                    let r = send(&mut sess, "setDataBreakpoints", json!({"breakpoints": l.iter().map(|(a, acc)| json!({"dataId": id(*a), "accessType": acc})).collect::<Vec<_>>()}))?;
+                    if std::env::var("BSMC_DEBUG").is_ok() {
+                        eprintln!("{hist} ids {:?} -> {}", l.iter().map(|(a, _)| id(*a)).collect::<Vec<_>>(), r["resp"]);
+                    }
+                    if r["resp"]["success"] != true {
+                        out.push(("C13:data:request-failed".to_string(), format!("{hist}-> {}", r["resp"])));
+                        continue;
+                    }
+                    let got: Vec<bool> = r["resp"]["body"]["breakpoints"].as_array().map(|a| a.iter().map(|b| b["verified"].as_bool().unwrap_or(false)).collect()).unwrap_or_default();
+                    let want = expected(l);
+                    if got.len() != want.len() {
+                        out.push(("C13:data:breakpoint-count".to_string(), format!("{hist}-> {} entries answered for {} requested", got.len(), want.len())));
+                    } else if got != want {
+                        let refused_free = got.iter().zip(want.iter()).any(|(g, w)| !*g && *w);
+                        let kind = if refused_free { "refused-although-the-latest-set-leaves-room:previous-set-not-removed" } else { "accepted-beyond-capacity-or-duplicate" };
+                        let msgs: Vec<String> = r["resp"]["body"]["breakpoints"].as_array().map(|a| a.iter().filter_map(|b| b["message"].as_str().map(|s| s.to_string())).collect()).unwrap_or_default();
+                        out.push((format!("C13:data:{kind}"), format!("{hist}-> verified {got:?}, a debugger holding only this request's set gives {want:?}; messages {msgs:?}")));
+                    }
+                }
+                Step::Continue => {
+                    hist.push_str("continue; ");
+                    let r = send(&mut sess, "continue", json!({"threadId": tid}))?;
+                    if !stopped(&r) {
+                        out.push(("C13:data:machinery:no-second-stop".to_string(), format!("{hist}-> {}", r["wire"])));
+                        break;
+                    }
+                }
+                Step::Restart => {
+                    hist.push_str("restart; ");
+                    let r = send(&mut sess, "restart", json!({}))?;
+                    if !stopped(&r) {
+                        out.push(("C13:data:machinery:no-stop-after-restart".to_string(), format!("{hist}-> {}", r["wire"])));
+                        break;
+                    }
+                }
+            }
+        }
+        let _ = send(&mut sess, "disconnect", json!({"terminateDebuggee": true}));
+        Ok(out)
+    };
+    let results: Vec<(usize, Result<Vec<(String, String)>, String>)> = seqs.par_iter().enumerate().map(|(i, sq)| (i, run_seq(sq))).collect();
+    let mut outcomes: std::collections::BTreeSet<String> = Default::default();
+    for (i, r) in results {
+        let replay = json!({"engine":"c13-data","sequence":format!("{:?}", seqs[i]),"index":only.unwrap_or(i),"tier":tier.as_str()});
+        part.states += 1;
+        part.transitions += seqs[i].len() as u64;
+        part.evaluations += seqs[i].iter().filter(|s| matches!(s, Step::Set(_))).count() as u64;
+        match r {
+            Ok(f) => {
+                if f.is_empty() {
+                    part.distinct_nontrivial += 1;
+                }
+                for (sig, detail) in f {
+                    // confirm on a fresh connection before reporting
+                    let again = run_seq(&seqs[i]).map(|f2| f2.iter().any(|(s2, _)| *s2 == sig)).unwrap_or(false);
+                    outcomes.insert(sig.clone());
+                    if again {
+                        part.violate(sig, format!("[{}] {detail}", p.name()), replay.clone());
+                    } else {
+                        part.exhaustive = false;
+                        part.caps_hit.push(format!("one observation of {sig} did not repeat on a fresh connection and is no verdict"));
+                    }
+                }
+            }
+            Err(e) => {
+                // a session that could not be driven is no verdict about the property
+                let again = run_seq(&seqs[i]);
+                if again.is_err() {
+                    part.violate("C13:data:session-broke", format!("[{}] {:?}: {e}", p.name(), seqs[i]), replay);
+                } else {
+                    part.caps_hit.push(format!("one session failed once ({e}) and ran on the second attempt"));
+                }
+            }
+        }
+    }
+    part.distinct_outcomes = outcomes.len() as u64 + 1;
+    part.traces_validated = part.states;
+    part
+}
+
 // ------------------------------------------------------------------------------------------ C05 over DAP
 
 /// Frame selection over DAP on a deep stack: every frame id of a 257-frame backtrace must select
